@@ -12,10 +12,10 @@ def opt(n, d):
 eng, pref = sys.argv[1], sys.argv[2]
 tier = opt("--tier", "quick"); seed = int(opt("--seed", "1")); tag = opt("--tag", None); ctx = int(opt("--ctx", "12"))
 mod = __import__("gen_" + eng)
+D.build_harness()          # (the crash generator runs the harness itself while generating)
 scns = [s for s in mod.generate(seed, tier) if s["id"].startswith(pref)][:int(opt("--max", "1"))]
 if not scns:
     sys.exit("no scenario matches")
-D.build_harness()
 wdir = os.path.join(D.WORK, "dbg-%d" % os.getpid())
 shutil.rmtree(wdir, ignore_errors=True); os.makedirs(wdir)
 sp = os.path.join(wdir, "s.ndjson")
